@@ -122,6 +122,9 @@ SKELETONS_EXTRA = [
 ]
 
 
+ODD_PAYLOADS = ["[]", "''", "0", "None", "()", "False", "0.0", "b''", "[0]", "{'a': 0}", "{0: ''}", "{'': None}", "[{}]", "({},)"]
+
+
 class C15(Check):
     pid = "C15"
     title = "MetaData extraction and empty-metadata removal are exact"
@@ -150,7 +153,66 @@ class C15(Check):
                       runner="run_skel"),
                 Space(f"small skeletons wrappers<={K + 1}", {"skeleton_size": 5, "max_wrappers": K + 1},
                       (lambda K=K: [(s, K + 1) for s in qspaces.enumerate_sources("fusionx", 5, 5, ("e",))[:12] + SKELETONS_EXTRA[4:6]]),
-                      runner="run_skel")]
+                      runner="run_skel"),
+                Space("payloads that are not empty dictionaries", {"payloads": ODD_PAYLOADS, "skeletons": 4, "placement": "every position, alone and directly below a truly empty wrapper"},
+                      [(sk, lit) for sk in ("Select(ds, lambda e: e.a)", "ds.Select(lambda e: e.jets.Where(lambda j: j.pt > 1))", "f(x=ds, y=g(z=ds2))",
+                                            "ResultTTree(Select(ds, lambda e: e.a), ['c'], 't', 'f.root')") for lit in ODD_PAYLOADS], runner="run_odd")]
+
+    def run_odd(self, payload):
+        """a MetaData call whose second argument is a literal but NOT an empty dictionary (a falsy list, string, number, None, a
+        non-empty dictionary with falsy contents): remove_empty_metadata must keep it, whatever else it removes"""
+        from func_adl.ast.meta_data import remove_empty_metadata
+
+        skel, lit = payload
+        canon = f"{skel}|payload {lit}"
+        res = {"n": 0, "nt": [canon], "oc": [], "tags": {}, "viol": []}
+        pristine = ast.parse(skel, mode="eval").body
+        nodes = number(pristine)
+        for pos in range(len(nodes)):
+            for with_empty in (False, True):
+                tree = ast.parse(skel, mode="eval").body
+                number(tree)
+
+                class W(ast.NodeTransformer):
+                    def visit(self, n):
+                        p_ = getattr(n, "_pos", None)
+                        r = super().visit(n)
+                        if p_ == pos:
+                            r = ast.Call(ast.Name("MetaData", ast.Load()), [r, ast.parse(lit, mode="eval").body], [])
+                            if with_empty:
+                                r = ast.Call(ast.Name("MetaData", ast.Load()), [r, ast.Dict([], [])], [])
+                        return r
+                a = W().visit(tree)
+                want = copy.deepcopy(a)
+                if with_empty:
+                    # the reference: only the outer, truly empty wrapper goes
+                    class U(ast.NodeTransformer):
+                        def visit_Call(self, n):
+                            self.generic_visit(n)
+                            if isinstance(n.func, ast.Name) and n.func.id == "MetaData" and isinstance(n.args[1], ast.Dict) and not n.args[1].keys:
+                                return n.args[0]
+                            return n
+                    want = U().visit(want)
+                for n in ast.walk(a):
+                    if hasattr(n, "_pos"):
+                        del n._pos
+                for n in ast.walk(want):
+                    if hasattr(n, "_pos"):
+                        del n._pos
+                res["n"] += 1
+                try:
+                    got = remove_empty_metadata(a)
+                except Exception as e:
+                    res["oc"].append("raised")
+                    res["viol"].append({"kind": f"remove-raised:{type(e).__name__}", "canon": canon, "msg": str(e)[:120]})
+                    return res
+                if ast.dump(got) != ast.dump(want):
+                    res["oc"].append("removed-non-empty")
+                    res["viol"].append({"kind": "remove-empty-removed-a-wrapper-that-is-not-an-empty-dictionary", "canon": canon,
+                                        "msg": f"position {pos}: {ast.unparse(got)[:160]} expected {ast.unparse(want)[:160]}"})
+                    return res
+        res["oc"].append("kept")
+        return res
 
     def run_skel(self, payload):
         from func_adl.ast.meta_data import extract_metadata, remove_empty_metadata
